@@ -36,6 +36,21 @@ ROWS = {
          "DESIGN.md §3.2 IncHash, §7 C08",
          "one-shot function of the same library as oracle (libsodium for ed25519ph); SHA-512 buffering lives in the sha2 crate (abstract layer only)",
          "TLA+ spec + TLC model checking; exhaustive split replay; impl->spec trace validation"),
+ "C01": ("exploration",
+         "Aead.tla writes every encrypting and opening entry point as the buffer program the code performs over symbolic positional bytes; TLC proves VariantAgreement (one canonical layout tag||body with body[i]=m[i]^ks[32+i]) and RoundTrip for every (construction, encrypt variant, open variant) triple and prints the triple matrix; the harness runs every concrete implementation of each variant (classic, object API over stack/array/Vec/heap containers, libsodium) for every message length 0..L and multi-KiB lengths: bytes equal libsodium's, every wire-compatible pair opens, libsodium on either side, sealed boxes included",
+         "DESIGN.md §3.2 Aead, §7 C01",
+         "libsodium-sys as byte reference; keys/nonces/messages seeded pseudo-random (constructions are key-oblivious); every length up to L visited, beyond that sampled",
+         "TLA+ symbolic-buffer spec checked by TLC; matrix-driven differential replay against libsodium"),
+ "C02": ("fault_enumeration",
+         "TLC derives the verdict of every (construction, open variant, fault kind) row on Aead.tla (TamperRejected / untampered accepted) and Stream.tla; the harness applies each fault kind at every position - every bit of tag, body, nonce, symmetric/precomputed key, sealed ephemeral key, stream header and AD, every truncation length, extensions 1..40 - for every message length 0..L on every implementation of every opening entry point (classic, object API, nightly containers, stream pull)",
+         "DESIGN.md §3.2 Aead/Stream, §7 C02",
+         "single faults as the property states; a false alarm needs a Poly1305 forgery; libsodium produces the authentic ciphertexts",
+         "TLA+ fault table checked by TLC; exhaustive single-fault enumeration replayed on the implementation"),
+ "C17": ("fault_enumeration",
+         "RejectReleasesNothing (Aead.tla) and RejectIsStutter on the tag output (Stream.tla) state that a rejected open shows the caller nothing derived from the ciphertext; the same exhaustive single-corruption family as C02 is replayed with canary-filled output buffers and a sentinel tag: after every Err the message buffer must be bit-identical to what it was (for in-place forms: the ciphertext passed in) or all zero, and the tag unchanged",
+         "DESIGN.md §3.2 Aead/Stream, §7 C17",
+         "caller-visible outputs only (buffers passed in, tag variable, returned values); internal temporaries are out of scope",
+         "TLA+ invariant checked by TLC; exhaustive single-fault enumeration with output-buffer canaries"),
 }
 NOT_YET = "check not built yet (work in progress; see DESIGN.md section 7)"
 
